@@ -1,0 +1,22 @@
+// Copyright (c) 2026 10X Genomics, Inc. All rights reserved.
+
+//go:build verif
+
+package syntax
+
+import "strings"
+
+// Exports of unexported formatter functions for the external verification
+// harness (property C09).  This file is only compiled with `-tags verif`.
+
+// VerifQuoteString exposes quoteString.
+func VerifQuoteString(s string) string {
+	var buf strings.Builder
+	quoteString(&buf, s)
+	return buf.String()
+}
+
+// VerifTopoSort exposes (*Pipeline).topoSort, which reorders pipeline.Calls.
+func VerifTopoSort(pipeline *Pipeline) error {
+	return pipeline.topoSort()
+}
